@@ -27,7 +27,7 @@ META = {
         'impl ⊆ envelope on the regular abstraction (sound: the abstraction over-approximates the reader), witnesses '
         're-validated under pyparsing\'s commitment semantics: tag names, strings/URIs (unterminated or illegally escaped '
         'text cannot be accepted), lists/dicts/nested grids inside their brackets, no 3.0-only alternative in the 2.0 '
-        'alternation, anchored version regex.  Not decided: termination; that line/col lie within the text.'),
+        'alternation, anchored version regex.  (D5) every piece of a multi-grid document is parsed on every returning path of parser.parse (path enumeration; `single` only selects from the parsed list).  Not decided: termination; that line/col lie within the text.'),
     'rule_text': 'obligations = wrapper facts, calls inside handlers x may-raise table, parse actions x may-raise table, '
                  'envelopes',
     'trusted_base': ['spec/may_raise.json (library exception facts); logging calls do not raise'],
@@ -47,6 +47,35 @@ def run(ctx):
     finally:
         X.OVERLAY = {}
     _envelopes(ctx)
+    _every_piece(ctx)
+
+
+def _every_piece(ctx):
+    """(D5) every blank-line-separated piece of the document goes through the grid grammar before a grid is
+    returned: a malformed later block cannot hide behind a well-formed first one."""
+    from . import _parse
+    try:
+        r = _parse.result_shaping(ctx.model)
+    except (AnalysisError, Unsupported) as e:
+        ctx.error('C09.D5', str(e))
+        return
+    ctx.count('returning paths of parser.parse', r['n_paths'])
+    FR = _parse.FR
+    for key, label in (('single_nonempty', 'single=True'), ('multi', 'single=False')):
+        forms = r[key]
+        skipped = forms & {'FIRST1'}
+        if skipped:
+            node = r['nodes'][(key, 'FIRST1')]
+            ctx.violation('C09.D5', '%s::parse' % FR, norm(node),
+                          'the text \'ver:"3.0"\\nid\\n1\\n\\n2\\n"unterminated\\n\' (a well-formed grid, a blank line, then a '
+                          'block without version header): parse() returns the first grid instead of raising ZincParseException',
+                          'with %s only the first piece of the document is handed to the grid parser; later pieces are '
+                          'never checked' % label, file=FR, line=node.lineno, engine='E6')
+        elif forms <= {'FIRST', 'ALL'} and forms:
+            ctx.ob('C09.D5', '%s: every piece of the document is parsed before anything is returned (%s)'
+                   % (label, '/'.join(sorted(forms))), True, '%s:%d' % (FR, list(r['nodes'].values())[0].lineno))
+        else:
+            ctx.error('C09.D5', 'parse(): %s returns %s; cannot decide' % (label, sorted(forms)))
 
 
 def _wrapper(ctx):
